@@ -407,6 +407,15 @@ func writerBody(c *engine.Ctx, cs c03Case, t geom.T, want []byte, m *engine.MC) 
 		bad("not-prefix", fmt.Sprintf("accepted bytes %x are not a prefix of %x", w.Got, want))
 		return
 	}
+	// whatever the writer did, the geometry is as it was: encoded again (into memory) it gives the
+	// same bytes - a failed write must not leave it changed
+	if w.Failed != nil {
+		var again bytes.Buffer
+		if p, _ := engine.Guard(func() { _ = c03Write(&again, t, cs) }); p != nil || !bytes.Equal(again.Bytes(), want) {
+			bad("geometry-changed-by-failed-write", fmt.Sprintf("after the failed write the same geometry encodes to %x (panic %v), before: %x", again.Bytes(), p, want))
+			return
+		}
+	}
 	if w.Failed != nil {
 		if err == nil {
 			bad("error-swallowed", fmt.Sprintf("writer failed with %v after %d bytes but Write returned nil", w.Failed, len(w.Got)))
@@ -849,7 +858,8 @@ func runReader(c *engine.Ctx, cs c03Case, bound int, capped *bool) {
 
 func runWriter(c *engine.Ctx, cs c03Case) {
 	t, want := cs.G.MustBuild(), ref.EncodeWKB(cs.G, cs.XDR, cs.Ext)
-	st := engine.Explore(1, 0, c.Expired, func(m *engine.MC) { writerBody(c, cs, t, want, m) })
+	st := engine.Explore(1, 0, c.Expired, func(m *engine.MC) { writerBody(c, cs, cs.G.MustBuild(), want, m) })
+	_ = t
 	c.Count("writer_executions", st.Executions)
 }
 
